@@ -9,6 +9,8 @@
 //        Value API, stringified (precision 17), the text is parsed again from an exact
 //        buffer and the result stringified a second time.
 //        Output: <text units>|<dump of the reparsed value>|<1 if second text == first else 0>
+//   kind H : payload = text1/text2/... (each a unit list): the texts are parsed one after the other through ONE
+//        caller-supplied scratch stream, JSON::Parse(stream, content, length).  Output: dump1/dump2/...
 //   kind Z : payload = depth,shape ; parses a generated document nested <depth> levels
 //        (shape 0 = [[[..]]], 1 = {"a":{"a":..}}, 2 alternating); output ok<depth> when the
 //        result is defined and has that depth, else bad.  (run by the check under ulimit -s)
@@ -243,6 +245,26 @@ static std::string deep_case(const std::string &payload) {
 }
 
 template <typename C>
+static std::string history_case(const std::string &payload) {
+    StringStream<C> scratch;
+    std::string     out;
+    size_t          i = 0;
+    bool            first = true;
+    while (i <= payload.size()) {
+        size_t j = payload.find('/', i);
+        if (j == std::string::npos) j = payload.size();
+        auto            units = vf::parse_list(payload.substr(i, j - i));
+        vf::ExactBuf<C> buf(units);
+        Value<C>        v = JSON::Parse(scratch, (const C *)buf.p, (SizeT)buf.n);
+        if (!first) out += '/';
+        first = false;
+        dump(v, out);
+        i = j + 1;
+    }
+    return out;
+}
+
+template <typename C>
 static std::string run(char kind, const std::string &payload) {
     switch (kind) {
         case 'P':
@@ -250,6 +272,7 @@ static std::string run(char kind, const std::string &payload) {
         case 'G': return parse_case<C>(vf::parse_list(payload));
         case 'S':
         case 'R': return stringify_case<C>(payload);
+        case 'H': return history_case<C>(payload);
         case 'Z': return deep_case<C>(payload);
         default: return "BADCASE";
     }
